@@ -5,6 +5,8 @@ use super::sym;
 
 pub fn lookup(name: &str) -> Option<fn()> {
     None.or_else(|| super::fuzzy::lookup(name))
+        .or_else(|| super::chars_h::lookup(name))
+        .or_else(|| super::exact_h::lookup(name))
 }
 
 #[cfg(test)]
@@ -31,4 +33,43 @@ fn run() {
         Ok(()) if failed > 0 => println!("REPLAY-RESULT violated {failed}"),
         Ok(()) => println!("REPLAY-RESULT clean"),
     }
+}
+
+/// The oracle is validated on every run against expectations of the repository's own test
+/// suite (matcher/src/tests.rs::test_fuzzy; haystack, needle, expected indices, expected score
+/// with the suite's symbolic constants resolved by hand). A disagreement means the oracle -
+/// not the crate - is wrong, and the run is inconclusive.
+#[cfg(test)]
+#[test]
+fn oracle_selftest() {
+    use super::spec::{self, Scheme};
+    let s = Scheme { path: false };
+    let vectors: &[(&str, &str, &[u32], u32)] = &[
+        ("fooBarbaz1", "obr", &[2, 3, 5], 50),
+        ("/usr/share/doc/at/ChangeLog", "changelog", &[18, 19, 20, 21, 22, 23, 24, 25, 26], 234),
+        ("fooBarbaz1", "br", &[3, 5], 39),
+        ("foo bar baz", "fbb", &[0, 4, 8], 78),
+        ("/AutomatorDocument.icns", "rdoc", &[9, 10, 11, 12], 77),
+        ("/man1/zshcompctl.1", "zshc", &[6, 7, 8, 9], 109),
+        ("/.oh-my-zsh/cache", "zshc", &[8, 9, 10, 12], 102),
+        ("ab0123 456", "12356", &[3, 4, 5, 8, 9], 88),
+    ];
+    let mut ok = 0;
+    for (h, n, idx, want) in vectors {
+        let hb = h.as_bytes();
+        let nh: Vec<u8> = hb.iter().map(|&b| spec::fold_ascii(b, true)).collect();
+        let mut bonus = Vec::new();
+        let mut prev = s.initial();
+        for &b in hb {
+            let c = s.class_ascii(b);
+            bonus.push(s.bonus(prev, c));
+            prev = c;
+        }
+        assert!(spec::is_subseq(&nh, n.as_bytes()), "oracle: {n} not a subsequence of {h}");
+        assert!(spec::valid_witness(&nh, n.as_bytes(), idx), "oracle: witness rejected for {h}/{n}");
+        let got = spec::score_of(&bonus, idx, idx.len());
+        assert_eq!(got, *want, "oracle score for {h}/{n}");
+        ok += 1;
+    }
+    println!("ORACLE-SELFTEST-OK {ok}");
 }
